@@ -622,6 +622,17 @@ where
     responses_tx: mpsc::Sender<Response<C::Resp>>,
 }
 
+#[cfg(feature = "verif-hooks")]
+impl<C> Requests<C>
+where
+    C: Channel,
+{
+    /// Number of responses handlers have queued that this stream has not yet taken.
+    pub fn verif_pending_responses(&self) -> usize {
+        self.pending_responses.len()
+    }
+}
+
 impl<C> Requests<C>
 where
     C: Channel,
